@@ -115,6 +115,13 @@ theorem SStr.step_spec (s : SStr) (f : File Char) (op : Op Char) (h : SRel s f) 
     rw [File.write_end f cs hok]
     refine ⟨trivial, hw.1, ?_, by rw [hw.2.2]; exact hch⟩
     rw [hw.2.1, hok]; simp
+  | writelines ss =>
+    simp only [okS, decide_eq_true_eq] at hok
+    have hw := SStr.writelines_spec ss s f.data hc (by rw [ht, hok]) hch
+    simp only [SStr.step, Spec.step]
+    rw [File.write_end f ss.flatten hok]
+    refine ⟨trivial, hw.1, ?_, by rw [hw.2.2]; exact hch⟩
+    rw [hw.2.1, hok]; simp
   | read n =>
     have hr := SStr.read_spec s f.data s.tell hc (some n)
     simp only [SStr.step, Spec.step, File.readN, File.rest]
@@ -265,5 +272,71 @@ theorem Spec.run_plain (f : File Char) (ops : List (Op Char)) (hp : plainS f ops
     simp only [plainS, Bool.and_eq_true] at hp
     simp only [Spec.run]
     rw [Spec.step_plain f op hp.1, ← ih _ (by rw [← Spec.step_plain f op hp.1]; exact hp.2)]
+
+/-! ### the tighter hypothesis `plainT` -/
+
+theorem Spec.step_plainT (f : File Char) (op : Op Char) (hp : plainOpT f op = true) :
+    Spec.step codecSem f op = Spec.step textSem f op := by
+  cases op with
+  | readline =>
+    simp only [plainOpT] at hp
+    have := firstLine_noExotic_line f.rest hp
+    simp only [Spec.step, codecSem, textSem, this]
+  | next =>
+    simp only [plainOpT] at hp
+    have := firstLine_noExotic_line f.rest hp
+    simp only [Spec.step, Spec.next, codecSem, textSem, this]
+    rfl
+  | readlineN n =>
+    simp only [plainOpT] at hp
+    have := firstLine_noExotic_line f.rest hp
+    simp only [Spec.step, codecSem, textSem, this]
+  | list =>
+    simp only [plainOpT] at hp
+    have := splitL_noExotic f.rest hp
+    simp only [Spec.step, codecSem, textSem, this]
+  | drain =>
+    simp only [plainOpT] at hp
+    have := splitL_noExotic f.rest hp
+    simp only [Spec.step, codecSem, textSem, this]
+  | _ => rfl
+
+theorem Spec.run_plainT (f : File Char) (ops : List (Op Char)) (hp : plainT f ops = true) :
+    Spec.run codecSem f ops = Spec.run textSem f ops := by
+  induction ops generalizing f with
+  | nil => rfl
+  | cons op ops ih =>
+    simp only [plainT, Bool.and_eq_true] at hp
+    simp only [Spec.run]
+    rw [Spec.step_plainT f op hp.1, ← ih _ (by rw [← Spec.step_plainT f op hp.1]; exact hp.2)]
+
+/-- the io line is a prefix of the unread rest -/
+theorem firstLine_eq_take (u : Bool) (l : List Char) : firstLine u l = l.take (firstLine u l).length := by
+  induction l with
+  | nil => rfl
+  | cons c cs ih =>
+    by_cases hcr : c = '\r'
+    · subst hcr
+      cases cs with
+      | nil => simp [firstLine]
+      | cons d cs' => by_cases hd : d = '\n' <;> simp [firstLine, hd]
+    · by_cases hb : isBrk u c = true
+      · simp [firstLine, hcr, hb]
+      · have hfl : firstLine u (c :: cs) = c :: firstLine u cs := by simp [firstLine, hcr, hb]
+        rw [hfl]; simp only [List.length_cons, List.take_succ_cons]; rw [← ih]
+
+/-- `plainS` (no exotic character anywhere in the text) implies `plainT` -/
+theorem plainOp_imp_plainOpT (f : File Char) (op : Op Char) (h : plainOp f op = true) : plainOpT f op = true := by
+  have hr : noExotic f.data = true → noExotic f.rest = true := fun h => noExotic_drop _ _ h
+  have hl : noExotic f.data = true → noExotic (firstLine false f.rest) = true := by
+    intro h; rw [firstLine_eq_take]; exact noExotic_of_sublist_take _ _ (hr h)
+  cases op <;> simp only [plainOp, plainOpT] at h ⊢ <;> first | exact hl h | exact hr h | rfl
+
+theorem plainS_imp_plainT (f : File Char) (ops : List (Op Char)) (h : plainS f ops = true) : plainT f ops = true := by
+  induction ops generalizing f with
+  | nil => rfl
+  | cons op ops ih =>
+    simp only [plainS, plainT, Bool.and_eq_true] at h ⊢
+    exact ⟨plainOp_imp_plainOpT f op h.1, ih _ h.2⟩
 
 end C18
